@@ -101,6 +101,7 @@ static const rpair_t RP[] = {
 	{ "p256a", JWT_ALG_ES256, 0 }, { "p256_x0", JWT_ALG_ES256, 0 }, { "p256_d0", JWT_ALG_ES256, 0 }, { "p384", JWT_ALG_ES384, 0 }, { "p384_y0", JWT_ALG_ES384, 0 },
 	{ "p521", JWT_ALG_ES512, 0 }, { "p521_d0", JWT_ALG_ES512, 0 }, { "k256", JWT_ALG_ES256K, 1 }, { "k256_x0", JWT_ALG_ES256, 1 },
 	{ "ed25519a", JWT_ALG_EDDSA, 0 }, { "ed25519b", JWT_ALG_EDDSA, 0 }, { "ed448", JWT_ALG_EDDSA, 0 },
+	{ "rsa2050", JWT_ALG_RS256, 0 }, { "rsa2050", JWT_ALG_PS512, 0 }, { "rsa3002", JWT_ALG_PS256, 0 },
 };
 #define NRP ((int)(sizeof RP / sizeof *RP))
 
@@ -832,6 +833,7 @@ static void enumerate(void)
 	vf_alloc_install();
 	vf_alloc_track(1);
 	vk_load();
+	vk_load_extra();
 	rc_rng_install();
 	vf_now = T0;
 	lj_select_provider(vf_param);
